@@ -41,7 +41,7 @@ def register(reg):
             "forall(range(0, len(reactions)), lambda j: forall(STR, lambda k: implies(k != reactants_col and k != products_col, "
             "(reactions[j][k] == old(reactions[j][k])) and ((k in reactions[j]) == old(k in reactions[j])))))",
             "forall(range(_i, len(reactions)), lambda j: same_map(reactions[j], old(mapof(reactions[j]))))",
-            "forall(ROW, lambda r: implies(not exists(range(0, len(reactions)), lambda j: reactions[j] is r), same_map(r, old(mapof(r)))))",
+            "forall(ROW, lambda r: implies(not in_list(r, reactions), same_map(r, old(mapof(r)))))",
         ]}},
         props=["C01", "C03", "C04", "C10"])
 
@@ -134,7 +134,7 @@ def register(reg):
     SPLITS = ("forall(range(0, len(reactions)), lambda j: 'reactants' in {R} and 'products' in {R}"
               " and {R}['reactants'] == split_at(as_str(old({R}[self.reaction_col])), '>>', 0)"
               " and {R}['products'] == split_at(as_str(old({R}[self.reaction_col])), '>>', 1))").format(R=R)
-    NOT_IN_LIST = ("forall(ROW, lambda r: implies(not exists(range(0, len(reactions)), lambda j: reactions[j] is r), "
+    NOT_IN_LIST = ("forall(ROW, lambda r: implies(not in_list(r, reactions), "
                    "same_map(r, old(mapof(r)))))")
     SAME_ROWS = "len(reactions) == old(len(reactions)) and forall(range(0, len(reactions)), lambda j: reactions[j] is old(reactions[j]))"
     INV0 = [
@@ -164,3 +164,81 @@ def register(reg):
         loops={0: {"inv": INV0}, 1: {"inv": INV1}},
         shards=8,
         props=["C01", "C03", "C04"])
+
+    # ------------------------------------------------------------------------------------------------
+    # ConfidencePredictor.predict
+    FA = "synrbl/SynAnalysis/analysis_utils.py"
+    FCP = "synrbl/confidence_prediction.py"
+    reg.contract(FA, "count_boundary_atoms_products_and_calculate_changes",
+                 params={"list_of_dicts": ROWS, "reaction_col": STR, "mcs_col": STR}, returns=ROWS, assumed=True,
+                 ensures=["result is list_of_dicts and len(list_of_dicts) == old(len(list_of_dicts))",
+                          "forall(range(0, len(list_of_dicts)), lambda j: list_of_dicts[j] is old(list_of_dicts[j]))",
+                          only_keys("list_of_dicts", ["'num_boundary'", "'bond_change_merge'", "'ring_change_merge'"])],
+                 modifies=["each(list_of_dicts)"],
+                 note="adds the three feature keys to each row in place and changes nothing else (RDKit descriptors)",
+                 props=["C13", "C18"])
+    reg.contract(FA, "calculate_chemical_properties",
+                 params={"dictionary_list": ROWS}, returns=ROWS, fresh_result=True, assumed=True,
+                 requires=["forall(range(0, len(dictionary_list)), lambda j: 'reactants' in dictionary_list[j] and 'products' in dictionary_list[j])"],
+                 ensures=["len(result) == len(dictionary_list)",
+                          "forall(range(0, len(result)), lambda j: fresh(result[j]))"],
+                 note="works on a deep copy; the argument rows are not modified",
+                 props=["C13", "C18"])
+    reg.classdecl("ConfidencePredictor", {"reaction_col": STR, "input_reaction_col": STR, "confidence_col": STR,
+                                          "solved_col": STR, "solved_by_col": STR, "solved_by_method": STR,
+                                          "issue_col": STR, "mcs_col": STR})
+    PC = ["self.reaction_col", "self.input_reaction_col", "self.confidence_col", "self.solved_col", "self.solved_by_col",
+          "self.issue_col", "self.mcs_col", "'reactants'", "'products'", "'num_boundary'", "'bond_change_merge'", "'ring_change_merge'"]
+    pdistinct = " and ".join("%s != %s" % (a, b) for i, a in enumerate(PC) for b in PC[i + 1:])
+    R = "reactions[j]"
+    M = "(old(self.solved_by_col in {R}) and old({R}[self.solved_by_col]) == self.solved_by_method)".format(R=R)
+    PKEYS = ["self.confidence_col", "self.solved_col", "self.issue_col", "'reactants'", "'products'", "'num_boundary'",
+             "'bond_change_merge'", "'ring_change_merge'"]
+    MSG = "'Confidence is below the threshold of {:.2%}.'.format(threshold)"
+    PRE_ROWS = ("forall(range(0, len(reactions)), lambda j: implies(self.solved_by_col in {R} and {R}[self.solved_by_col] == self.solved_by_method, "
+                "self.input_reaction_col in {R} and is_str({R}[self.input_reaction_col]) and split_len(as_str({R}[self.input_reaction_col]), '>>') >= 2 "
+                "and self.issue_col in {R} and {R}[self.issue_col] == ''))").format(R=R)
+    PPOST = [
+        # rows of other methods and declined rows are not touched at all [C13]
+        "implies(not {M}, same_map({R}, old(mapof({R}))))".format(M=M, R=R),
+        # scored rows: confidence in [0,1]; solved exactly when confidence >= threshold; issue names the threshold [C13]
+        "implies({M}, is_real({R}[self.confidence_col]) and as_real({R}[self.confidence_col]) >= 0 and as_real({R}[self.confidence_col]) <= 1)".format(M=M, R=R),
+        "implies({M} and as_real({R}[self.confidence_col]) >= threshold, {R}[self.solved_col] == old({R}[self.solved_col]) and {R}[self.issue_col] == old({R}[self.issue_col]))".format(M=M, R=R),
+        "implies({M} and as_real({R}[self.confidence_col]) < threshold, {R}[self.solved_col] == False and {R}[self.issue_col] == {MSG})".format(M=M, R=R, MSG=MSG),
+    ]
+    notk = lambda ks: " and ".join("k != %s" % k for k in ks)  # noqa
+    RP = ("(is_real(r[self.confidence_col]) and as_real(r[self.confidence_col]) >= 0 and as_real(r[self.confidence_col]) <= 1"
+          " and implies(as_real(r[self.confidence_col]) >= threshold, r[self.solved_col] == old(r[self.solved_col]) and r[self.issue_col] == old(r[self.issue_col]))"
+          " and implies(as_real(r[self.confidence_col]) < threshold, r[self.solved_col] == False and r[self.issue_col] == " + MSG + ")"
+          " and forall(STR, lambda k: implies(" + notk(PKEYS) + ", r[k] == old(r[k]) and (k in r) == old(k in r))))")
+    FK3 = ["'reactants'", "'products'", "'num_boundary'", "'bond_change_merge'", "'ring_change_merge'"]
+    RU = ("(forall(STR, lambda k: implies(" + notk(FK3) + ", r[k] == old(r[k]) and (k in r) == old(k in r))))")
+    PINV = [
+        "len(old(reactions)) == old(len(reactions)) and forall(range(0, len(old(reactions))), lambda j: old(reactions)[j] is old(reactions[j]))",
+        # rows that are not scored are untouched
+        "forall(range(0, len(old(reactions))), lambda j: let(old(reactions)[j], lambda r: implies(not (old(self.solved_by_col in r) and old(r[self.solved_by_col]) == self.solved_by_method), same_map(r, old(mapof(r))))))",
+        "forall(ROW, lambda r: implies(not in_list(r, old(reactions)), same_map(r, old(mapof(r)))))",
+        "forall(range(0, _i), lambda a: let(reactions[a], lambda r: " + RP + "))",
+        "forall(range(_i, len(reactions)), lambda a: let(reactions[a], lambda r: " + RU + "))",
+        "conf_success >= 0 and len(reactions) == len(confidence)",
+        # the scored list is a sub-list of the argument: exactly its rows attributed to the method
+        "forall(range(0, len(reactions)), lambda a: in_list(reactions[a], old(reactions)))",
+        "forall(range(0, len(reactions)), lambda a: let(reactions[a], lambda r: old(self.solved_by_col in r) and old(r[self.solved_by_col]) == self.solved_by_method))",
+        "forall(range(0, len(old(reactions))), lambda j: let(old(reactions)[j], lambda r: implies(old(self.solved_by_col in r) and old(r[self.solved_by_col]) == self.solved_by_method, in_list(r, reactions))))",
+        "forall(range(0, len(reactions)), lambda a: forall(range(0, len(reactions)), lambda b: implies(a != b, not (reactions[a] is reactions[b]))))",
+        "implies(not is_none(stats), same_map(stats, old(mapof(stats))))",
+    ]
+    reg.contract(
+        FCP, "ConfidencePredictor.predict",
+        params={"self": Obj("ConfidencePredictor"), "reactions": ROWS, "stats": Ty("opt", COMP), "threshold": REAL},
+        returns=ROWS,
+        requires=["distinct_rows(reactions)", pdistinct, PRE_ROWS],
+        ensures=["len(reactions) == old(len(reactions))",
+                 "forall(range(0, len(reactions)), lambda j: reactions[j] is old(reactions[j]))"]
+        + ["forall(range(0, len(reactions)), lambda j: %s)" % p for p in PPOST]
+        + [only_keys("reactions", PKEYS),
+           "implies(not is_none(stats), 'confident_cnt' in stats and stats['confident_cnt'] >= 0)"],
+        modifies=["each(reactions)", "stats"],
+        loops={0: {"inv": PINV}},
+        shards=8,
+        props=["C13", "C18", "C03"])
